@@ -1,7 +1,7 @@
 (* Property C16 — silent skip vs DDLParserError.  Statements only; proofs are in Proofs/. *)
 From Coq Require Import String List ZArith NArith PArith Bool.
 From SDP Require Import Base PyStr LR LRProofs Lexer Actions Parse.
-From SDP Require Seq SeqProofs Entity EntityProofs Table TableProofs TableItemProofs Alter AlterProofs AlterKeyProofs TypeDom TypeDomProofs TypeObj TypeObjProofs.
+From SDP Require Seq SeqProofs Entity EntityProofs Table TableProofs TableItemProofs Alter AlterProofs AlterKeyProofs TypeDom TypeDomProofs TypeObj TypeObjProofs SchemaX SchemaXProofs.
 Import ListNotations.
 
 (* For EVERY table set, token list (any length): if the loud parser (silent=False) does not raise,
@@ -87,6 +87,11 @@ Theorem C16_object_type_loud_is_silent : forall o norm, TypeObj.wf norm o = true
   parse_lexemes norm false (TypeObj.lexemes o) = Ok (Some (TypeObj.denote norm o)).
 Proof. intros o norm H. rewrite !(TypeObjProofs.typeobj_parse o norm _ H). split; reflexivity. Qed.
 Print Assumptions C16_object_type_loud_is_silent.
+Theorem C16_schema_loud_is_silent : forall x norm, SchemaX.wf norm x = true ->
+  parse_lexemes norm false (SchemaX.lexemes x) = parse_lexemes norm true (SchemaX.lexemes x) /\
+  parse_lexemes norm false (SchemaX.lexemes x) = Ok (Some (SchemaX.denote norm x)).
+Proof. intros x norm H. rewrite !(SchemaXProofs.schx_parse x norm _ H). split; reflexivity. Qed.
+Print Assumptions C16_schema_loud_is_silent.
 
 (* ---------- the statement parser as run() calls it ------------------------------------------------------------------------------------------
    Parser.parse_statement (model: Api.parse_stmt_of, tied by correspondence F): with silent=True a statement on which PLY reported a
